@@ -467,8 +467,9 @@ def parser_checks(run, tb, tmp):
             r_empty = P.real(variant, lines=lines, argv=[])
             run.count("oracle absent option keeps file", section="oracle")
             d = r_noargs.diff(r_empty)
-            if d:
-                viol("absent-option-changes-file-settings", "an empty command line changes what the file sets: %s" % str(d)[:300], dict(variant=variant, conf=lines, argv=[]))
+            if d:  # a statement of the model (absent_option_keeps_file), not of a command: commands always pass an args object
+                run.broke("correspondence", "PhonopyConfParser(filename) without an args object and with an empty command line differ: %s" % str(d)[:300],
+                          dict(variant=variant, conf=lines, argv=[]))
         # ---- oracle: order independence of file lines (distinct, non-conflicting tags) and of the command line
         tags = [e[0] for e in entries]
         if real.kind == "ok" and len(set(tags)) == len(tags) and len(tags) > 1 and not any(
@@ -478,9 +479,9 @@ def parser_checks(run, tb, tmp):
             r2 = P.real(variant, lines=_entries_to_lines(rng, sh), argv=argv)
             run.count("oracle file order", section="oracle")
             d = real.diff(r2)
-            if d:
-                viol("file-order-dependent", "permuting the lines of the conf file changes the settings: %s" % str(d)[:300],
-                     dict(variant=variant, conf=lines, conf_permuted=_entries_to_lines(rng, sh, noise=False), argv=argv))
+            if d:  # merge_order_free is a theorem about the model: a disagreement is a broken correspondence, the route oracles search the failing input
+                run.broke("correspondence", "permuting non-conflicting lines of the conf file changes the settings (merge_order_free does not describe the code): %s" % str(d)[:300],
+                          dict(variant=variant, conf=lines, conf_permuted=_entries_to_lines(rng, sh, noise=False), argv=argv))
 
     # ------------------------------------------------------------------ oracle: sets of settings by all-file / all-option / mixed routes
     def check_set(variant, chosen, all_splits):
@@ -507,7 +508,8 @@ def parser_checks(run, tb, tmp):
             r_opt2 = P.real(variant, lines=None, argv=[a for g in groups for a in g])
             run.count("oracle option order", section="oracle")
             if r_opt.diff(r_opt2):
-                viol("option-order-dependent", "permuting the command line changes the settings", dict(variant=variant, argv=argv_all, argv_permuted=[a for g in groups for a in g]))
+                run.broke("correspondence", "permuting the command line changes the settings (the model reads an unordered namespace)",
+                          dict(variant=variant, argv=argv_all, argv_permuted=[a for g in groups for a in g]))
         for mask in range(1, 2 ** len(movable)):
             if mask == 2 ** len(movable) - 1 and len(movable) == len(chosen):
                 continue  # all-option: done above
